@@ -20,6 +20,9 @@ RULES = {
     "R11.6": "the undo id is exclusive: no payout outside ibc_packet_receive (refunds on error-ack / timeout) is dispatched with a "
              "reply id on which `reply` performs the undo - otherwise a failing refund replays the REPLY_ARGS left by an earlier, "
              "unrelated receive and raises the outstanding balance of a channel nothing was escrowed on",
+    "R11.7": "upgrade path (shared with C12 R12.7): migrate reconciles the channel balances exactly for the releases that did not keep "
+             "them (stored version <= 0.13.0) and never for later ones - re-running it books tokens the contract merely holds as "
+             "escrow of a channel, which that channel's counterparty can then redeem",
     "R11.5": "voucher prefix: on receive the local denom is the third '/'-segment of the packet denom only on paths that decided "
              "segments == 3, segment0 == packet.src.port_id and segment1 == packet.src.channel_id",
 }
@@ -144,6 +147,16 @@ def run(ctx):
     ctx.floor("R11.1", "payout sites", n_pay, 3)
     ctx.floor("R11.3", "escrow increases", n_inc, 3)
     ctx.floor("R11.4", "receive paths saving REPLY_ARGS", len(saved_args), 1)
+    # R11.7 = C12 R12.7: a migrate that books live holdings as escrow for a release that already keeps its balances (or skips the
+    # reconciliation for one that does not) leaves outstanding balances that no transfer on that channel escrowed
+    from . import C12
+    sub = type(ctx)(ctx.pid, ctx.facts, ctx.engine, ctx.tier, ctx.tree_hash)
+    C12.check_migrate_gate(sub, eps)
+    for k in sub.order:
+        o = sub.obs[k]
+        if o.rule == "R12.7" and not o.key.startswith(("anchor", "floor")):
+            ctx.ob("R11.7", o.key, True if o.status == "discharged" else (None if o.status == "undecided" else False),
+                   detail="; ".join(o.details), sites=o.sites, sample=o.sample)
     # reply id agreement
     undo_ids = ctx.cache.get("undo_ids", set())
     for key, rid, sites in other_ids:
